@@ -28,6 +28,12 @@
 //! amaint`) run the same operation on the `AsyncCache` handle under `futures_executor::block_on` on the worker
 //! thread; their call lines say `acall` instead of `call`, step lines are identical, lock kinds are `ra wa la`.
 //!
+//! v3b: async ops run on a tiny executor integrated with the scheduler: when the op future returns Pending the
+//! worker is parked (not runnable) until its waker has been called; when it is scheduled again it logs
+//! `<tid> repoll` and polls again. Async acquisitions (`ra wa la`) are never blocked by the harness: they are
+//! performed and may go Pending (so `aclear`'s join_all skips a held shard and goes on); sync acquisitions keep
+//! the blocked test. Nothing runnable while workers are unfinished = `X deadlock:<tids>` + a `conc:hang:*` monitor.
+//!
 //! Transcript: `#case <id> threads=<n> shards=<S> cap=<c|inf> policy=<p> coop=<0|1> nkeys=<K> ttl=<ns|0> tti=<ns|0> track=<0|1> strategy=<..>`,
 //! `P <tid> <ops ; ...>`, `S <decisions>`, step lines `<tid> <step> [args] => <result> [ret=..] [cur=<u64> m=<k:v,..|->]`,
 //! event lines `<tid> acq <role> <kind>` / `<tid> clock`, `X <status>`, `!monitor` lines, `#end`.
@@ -36,7 +42,7 @@ use fibre_cache::verif_sched::{self, SchedHook};
 use fibre_cache::{verif_clock, Cache, CacheBuilder, EvictionListener, EvictionReason};
 use std::collections::{BTreeMap, BTreeSet, HashMap};
 use std::hash::{BuildHasher, Hasher};
-use std::sync::atomic::{AtomicUsize, Ordering};
+use std::sync::atomic::{AtomicBool, AtomicUsize, Ordering};
 use std::sync::{Arc, Condvar, Mutex};
 use std::thread::ThreadId;
 use std::time::{Duration, Instant};
@@ -137,7 +143,7 @@ impl EvictionListener<u64, u64> for RecListener {
 
 // ------------------------------------------------------------------ scheduler
 #[derive(Clone, Debug, PartialEq)]
-enum Status { Running, AtPoint, Finished }
+enum Status { Running, AtPoint, /** async op future returned Pending: runnable once its waker has been called */ ParkedAsync, Finished }
 
 struct Th {
   status: Status,
@@ -156,6 +162,10 @@ struct Th {
   pending_acq: Option<(String, &'static str)>,
   /// shard locks acquired since the last arrival (only `clear` keeps shard locks across a yield)
   held_shards: Vec<usize>,
+  /// shards on which an async write acquisition of this thread is queued (registered writer: WRITER_PENDING)
+  pending_shards: Vec<usize>,
+  /// maintenance lock on which an async acquisition of this thread is queued
+  pending_maint: Option<usize>,
 }
 
 type Obs = (u64, BTreeMap<u64, u64>);
@@ -196,6 +206,10 @@ struct Inner {
   ended_at_lock_yield: bool,
   /// the case uses the virtual clock (holds the global expiry mutex)
   expiry: bool,
+  /// per worker: its async waker has been called since its last poll (set lock-free by the waker)
+  wake_flags: Arc<Vec<AtomicBool>>,
+  /// set when the run ends in a deadlock: (a stuck worker is inside a clear, who holds / waits for what)
+  hang: Option<(bool, String)>,
 }
 
 #[derive(Clone, Copy)]
@@ -203,7 +217,7 @@ enum Ret { Opt(Option<u64>), Unit, Val(u64), Cmp(&'static str) }
 
 impl Inner {
   fn push(&mut self, t: usize, s: String) {
-    let step = !(s.starts_with("call ") || s.starts_with("acall ") || s.starts_with("acq ") || s == "clock");
+    let step = !(s.starts_with("call ") || s.starts_with("acall ") || s.starts_with("acq ") || s == "clock" || s == "repoll");
     self.log.push(Line { text: format!("{t} {s}"), obs: None, quiescent: false, step });
   }
 
@@ -213,8 +227,9 @@ impl Inner {
   fn blocked(&self, i: usize) -> bool {
     match &self.th[i].pending_acq {
       Some((role, kind)) => {
-        if let (Some(sh), "l" | "la") = (Self::role_index(role, "maint"), *kind) { matches!(self.mlock.get(sh), Some(Some(h)) if *h != i) }
-        else if let (Some(sh), "r" | "w" | "ra" | "wa") = (Self::role_index(role, "shard"), *kind) { self.th.iter().enumerate().any(|(j, t)| j != i && t.held_shards.contains(&sh)) }
+        // async acquisitions are performed and may go Pending; sync ones would block the OS thread
+        if let (Some(sh), "l") = (Self::role_index(role, "maint"), *kind) { matches!(self.mlock.get(sh), Some(Some(h)) if *h != i) }
+        else if let (Some(sh), "r" | "w") = (Self::role_index(role, "shard"), *kind) { self.th.iter().enumerate().any(|(j, t)| j != i && (t.held_shards.contains(&sh) || t.pending_shards.contains(&sh))) }
         else { false }
       }
       None => false,
@@ -229,7 +244,22 @@ impl Inner {
     self.plog_since().iter().filter_map(|e| e.strip_prefix("rm:")).filter_map(|r| r.split(':').nth(1).and_then(|k| k.parse().ok())).collect()
   }
 
-  fn all_settled(&self) -> bool { self.baton.is_none() && self.th.iter().all(|t| matches!(t.status, Status::AtPoint | Status::Finished)) }
+  fn all_settled(&self) -> bool { self.baton.is_none() && self.th.iter().all(|t| matches!(t.status, Status::AtPoint | Status::ParkedAsync | Status::Finished)) }
+
+  fn held_by_other(&self, me: usize, sh: usize) -> bool { self.th.iter().enumerate().any(|(j, t)| j != me && t.held_shards.contains(&sh)) }
+
+  /// who holds / waits for what (for the hang monitors)
+  fn lock_picture(&self) -> String {
+    self.th.iter().enumerate().filter(|(_, t)| t.status != Status::Finished).map(|(i, t)| {
+      let waits = match (&t.pending_acq, t.status == Status::ParkedAsync) {
+        (Some((r, k)), _) => format!("blocked before `acq {r} {k}`"),
+        (None, true) => format!("parked Pending on shards {:?}{}", t.pending_shards, t.pending_maint.map_or(String::new(), |m| format!(" maint{m}"))),
+        _ => "runnable".to_string(),
+      };
+      format!("thread {i} ({}{}) holds shards {:?}{}, {waits}", if t.is_async { "a" } else { "" }, t.op.first().cloned().unwrap_or_default(), t.held_shards,
+        if self.mlock.iter().any(|h| *h == Some(i)) { " and a maintenance lock" } else { "" })
+    }).collect::<Vec<_>>().join("; ")
+  }
 
   fn stop(&mut self, status: String) { self.run_status = status; self.active = false; self.done = true; }
 
@@ -243,7 +273,10 @@ impl Inner {
       if let Some(li) = (logged_from..self.log.len()).rev().find(|&i| self.log[i].step) {
         // a shard whose lock a paused `clear` holds cannot be read (and cannot have changed): keep its keys
         let held: BTreeSet<usize> = self.th.iter().flat_map(|t| t.held_shards.iter().copied()).collect();
-        let mut o = observe(&self.cache, self.nkeys, self.expiry, &held, self.shards);
+        // a free shard with a queued async writer gates readers (a `peek` would block): read it through the
+        // write lock instead (`entry`), which barges past the queue like every writer
+        let gated: BTreeSet<usize> = self.th.iter().flat_map(|t| t.pending_shards.iter().copied()).filter(|s| !held.contains(s)).collect();
+        let mut o = observe(&self.cache, self.nkeys, self.expiry, &held, &gated, self.shards);
         for (k, v) in &self.last_obs { if held.contains(&(*k as usize % self.shards.max(1))) { o.1.insert(*k, *v); } }
         let quiescent = self.th.iter().all(|t| t.status == Status::Finished || (t.status == Status::AtPoint && t.pending_acq.is_none() && (t.last == "op" || t.last == "start")));
         self.last_obs = o.1.clone();
@@ -259,10 +292,14 @@ impl Inner {
       if !neutral { for (i, t) in self.th.iter_mut().enumerate() { if i != p { t.stale = false; } } }
     }
     if let Some(t) = self.panicked { self.stop(format!("panic:{t}")); return; }
-    let at_point: Vec<usize> = self.th.iter().enumerate().filter(|(_, t)| t.status == Status::AtPoint).map(|(i, _)| i).collect();
-    let unblocked: Vec<usize> = at_point.iter().copied().filter(|&i| !self.blocked(i)).collect();
+    let at_point: Vec<usize> = self.th.iter().enumerate().filter(|(_, t)| matches!(t.status, Status::AtPoint | Status::ParkedAsync)).map(|(i, _)| i).collect();
+    let unblocked: Vec<usize> = at_point.iter().copied().filter(|&i| if self.th[i].status == Status::ParkedAsync { self.wake_flags[i].load(Ordering::SeqCst) } else { !self.blocked(i) }).collect();
     if unblocked.is_empty() {
-      if at_point.is_empty() { self.done = true; } else { self.stop(format!("deadlock:{}", at_point.iter().map(|x| x.to_string()).collect::<Vec<_>>().join(","))); }
+      if at_point.is_empty() { self.done = true; } else {
+        let in_clear = self.th.iter().any(|t| t.status != Status::Finished && t.op.first().map(|s| s.as_str()) == Some("clear"));
+        self.hang = Some((in_clear, self.lock_picture()));
+        self.stop(format!("deadlock:{}", at_point.iter().map(|x| x.to_string()).collect::<Vec<_>>().join(",")));
+      }
       return;
     }
     if self.step_no >= STEP_BUDGET { self.stop("budget".into()); return; }
@@ -426,10 +463,46 @@ impl Sched {
       g.th[me].status = Status::Running;
       g.th[me].pending_acq = None;
       if !g.active { return; }
-      if let Some(sh) = shard { g.th[me].held_shards.push(sh); }
-      if let (Some(sh), "l" | "la") = (maint, kind) { if sh < g.mlock.len() { g.mlock[sh] = Some(me); } }
+      match (shard, maint, kind) {
+        // sync acquisitions only proceed when they cannot block
+        (Some(sh), _, "r" | "w") => g.th[me].held_shards.push(sh),
+        (_, Some(sh), "l") => { if sh < g.mlock.len() { g.mlock[sh] = Some(me); } }
+        // async write: acquired iff nobody holds the shard (writers barge past the queue), else the future queues
+        (Some(sh), _, "wa") => { if g.held_by_other(me, sh) { g.th[me].pending_shards.push(sh); } else { g.th[me].held_shards.push(sh); } }
+        (_, Some(sh), "la") => { if sh < g.mlock.len() { if g.mlock[sh].is_none() { g.mlock[sh] = Some(me); } else { g.th[me].pending_maint = Some(sh); } } }
+        _ => {} // async read: holds nothing across a yield, gates nobody
+      }
     }
     g.push(me, format!("acq {role} {kind}"));
+  }
+
+  /// The op future of async worker `me` returned Pending: park until the waker has been called AND the worker
+  /// is scheduled again; then log `repoll`.
+  fn async_pending(&self, me: usize) {
+    let mut g = self.m.lock().unwrap();
+    if g.active {
+      g.th[me].status = Status::ParkedAsync;
+      if g.th[me].op.first().map(|s| s.as_str()) != Some("clear") { g.th[me].held_shards.clear(); }
+      g.ended_at_lock_yield = true;
+      if g.baton == Some(me) { g.baton = None; }
+      if g.all_settled() { g.schedule(); self.wake(&g, Some(me)); }
+      while g.active && g.baton != Some(me) { g = self.cvs[me].wait(g).unwrap(); }
+      g.th[me].status = Status::Running;
+    }
+    if !g.active {
+      // the run is over (deadlock / stuck / budget): wait for a real wake-up like any executor would
+      let flags = g.wake_flags.clone();
+      drop(g);
+      while !flags[me].swap(false, Ordering::SeqCst) { std::thread::park(); }
+      return;
+    }
+    g.wake_flags[me].store(false, Ordering::SeqCst);
+    g.push(me, "repoll".to_string());
+    // the queued lock futures are polled again, in order: each one whose lock is free now acquires it
+    let mut pend = std::mem::take(&mut g.th[me].pending_shards);
+    pend.sort();
+    for sh in pend { if g.held_by_other(me, sh) { g.th[me].pending_shards.push(sh); } else { g.th[me].held_shards.push(sh); } }
+    if let Some(sh) = g.th[me].pending_maint { if g.mlock[sh].is_none() { g.mlock[sh] = Some(me); g.th[me].pending_maint = None; } }
   }
 
   fn clock_event(&self, me: usize) {
@@ -466,6 +539,25 @@ impl Sched {
       _ => return, // maint: one call per shard, logged at "maint:before_lock"; release: silent; advance: step line only
     };
     g.push(t, format!("{}{line} => -", if is_async { "a" } else { "" }));
+  }
+}
+
+/// Waker of an async worker: sets the worker's wake flag (lock-free: it is called from inside lock releases,
+/// possibly while the scheduler mutex is held by the observer) and unparks it (only matters once the run is over).
+struct BatonWaker { flags: Arc<Vec<AtomicBool>>, t: usize, thread: std::thread::Thread }
+impl std::task::Wake for BatonWaker {
+  fn wake(self: Arc<Self>) { self.wake_by_ref() }
+  fn wake_by_ref(self: &Arc<Self>) { self.flags[self.t].store(true, Ordering::SeqCst); self.thread.unpark(); }
+}
+
+/// Runs an async op of worker `t` to completion under the baton scheduler.
+fn run_async<F: std::future::Future>(s: &Sched, flags: &Arc<Vec<AtomicBool>>, t: usize, fut: F) -> F::Output {
+  let mut fut = std::pin::pin!(fut);
+  let waker = std::task::Waker::from(Arc::new(BatonWaker { flags: flags.clone(), t, thread: std::thread::current() }));
+  let mut cx = std::task::Context::from_waker(&waker);
+  loop {
+    if let std::task::Poll::Ready(v) = fut.as_mut().poll(&mut cx) { return v; }
+    s.async_pending(t);
   }
 }
 
@@ -582,13 +674,18 @@ const DFS_BATCH: usize = 16;
 
 /// `current_cost` and the physical map. `expiry`: the caller's case owns the virtual clock; `peek` hides
 /// expired entries, so the clock is set to 0 (nothing is expired at 0) around the reads.
-fn observe(cache: &C, nkeys: u64, expiry: bool, skip_shards: &BTreeSet<usize>, shards: usize) -> Obs {
+fn observe(cache: &C, nkeys: u64, expiry: bool, skip_shards: &BTreeSet<usize>, gated_shards: &BTreeSet<usize>, shards: usize) -> Obs {
   let was = QUIET.with(|q| q.replace(true));
   let now = verif_clock::now_nanos();
   if expiry { verif_clock::freeze_at(0); }
   let cur = cache.metrics().current_cost;
   let mut m = BTreeMap::new();
-  for k in 0..nkeys { if skip_shards.contains(&(k as usize % shards.max(1))) { continue; } if let Some(a) = cache.peek(&k) { m.insert(k, *a); } }
+  for k in 0..nkeys {
+    let sh = k as usize % shards.max(1);
+    if skip_shards.contains(&sh) { continue; }
+    if gated_shards.contains(&sh) { if let fibre_cache::Entry::Occupied(o) = cache.entry(k) { m.insert(k, *o.get()); } continue; }
+    if let Some(a) = cache.peek(&k) { m.insert(k, *a); }
+  }
   if expiry { verif_clock::freeze_at(now); }
   QUIET.with(|q| q.set(was));
   (cur, m)
@@ -627,27 +724,28 @@ fn run_case(id: &str, cfg: &Cfg, programs: &[Vec<String>], strat: Strategy, stra
   let roles: HashMap<usize, String> = cache.verif_lock_addrs().into_iter().map(|(r, a)| (a, r)).collect();
 
   let n = programs.len();
+  let wake_flags: Arc<Vec<AtomicBool>> = Arc::new((0..n).map(|_| AtomicBool::new(false)).collect());
   let sched = Arc::new(Sched {
     m: Mutex::new(Inner {
-      th: (0..n).map(|_| Th { status: Status::Running, last: "", op: vec![], is_async: false, maint_sh: 0, stale: false, pending_acq: None, held_shards: vec![] }).collect(),
+      th: (0..n).map(|_| Th { status: Status::Running, last: "", op: vec![], is_async: false, maint_sh: 0, stale: false, pending_acq: None, held_shards: vec![], pending_shards: vec![], pending_maint: None }).collect(),
       baton: None, log: vec![], decisions: vec![], active: true, mlock: vec![None; s_n], plog: plog.clone(), plog_mark: 0,
       last_obs: BTreeMap::new(), shards: s_n, panicked: None, exited: 0,
       rng: match &strat { Strategy::Random(s) => Rng::new(*s), _ => Rng::new(0) },
       strat, choice_points: vec![], step_no: 0, log_mark: 0, picked: None, run_status: "ok".into(), done: false,
-      cache: cache.clone(), nkeys: cfg.nkeys, roles, ended_at_lock_yield: false, expiry,
+      cache: cache.clone(), nkeys: cfg.nkeys, roles, ended_at_lock_yield: false, expiry, wake_flags: wake_flags.clone(), hang: None,
     }),
     cvs: (0..n).map(|_| Condvar::new()).collect(),
     main_cv: Condvar::new(),
   });
   let mut pool_threads = vec![];
   for (t, prog) in programs.iter().enumerate() {
-    let (cache, sched, prog) = (cache.clone(), sched.clone(), prog.clone());
+    let (cache, sched, prog, wake_flags) = (cache.clone(), sched.clone(), prog.clone(), wake_flags.clone());
     pool_threads.push(pool_run(Box::new(move || {
       CUR.with(|c| *c.borrow_mut() = Some((sched.clone(), t)));
       let _bail = Bail { s: sched.clone(), t };
       let mut slot: Option<Arc<u64>> = None;
       let ac = cache.to_async();
-      use futures_executor::block_on;
+      let block_on = |f: std::pin::Pin<Box<dyn std::future::Future<Output = Ret> + '_>>| run_async(&sched, &wake_flags, t, f);
       sched.arrive(t, "start", None, prog.is_empty());
       for (i, op) in prog.iter().enumerate() {
         let w: Vec<&str> = op.split_whitespace().collect();
@@ -670,17 +768,17 @@ fn run_case(id: &str, cfg: &Cfg, programs: &[Vec<String>], strat: Strategy, stra
           "orinsert" => Ret::Val(*cache.entry(k).or_insert(v, c)),
           "clear" => { cache.clear(); Ret::Unit }
           "maint" => { cache.run_maintenance(); Ret::Unit }
-          "aget" => Ret::Opt(block_on(ac.get(&k, |x| *x))),
-          "apeek" => Ret::Opt(block_on(ac.peek(&k)).map(|a| *a)),
-          "afetch" => Ret::Opt(block_on(ac.fetch(&k)).map(|a| *a)),
-          "ainsert" => { block_on(ac.insert(k, v, c)); Ret::Unit }
-          "ainsertttl" => { block_on(ac.insert_with_ttl(k, v, c, Duration::from_nanos(num(4)))); Ret::Unit }
-          "aremove" => Ret::Opt(block_on(ac.remove(&k)).map(|a| *a)),
-          "acompute" => Ret::Cmp(if block_on(ac.compute(&k, |x| *x += 1000)) { "true" } else { "none" }),
-          "atrycompute" => Ret::Cmp(match block_on(ac.try_compute(&k, |x| *x += 1000)) { Some(true) => "true", Some(false) => "false", None => "none" }),
-          "aorinsert" => Ret::Val(*block_on(async { ac.entry(k).await.or_insert(v, c) })),
-          "aclear" => { block_on(ac.clear()); Ret::Unit }
-          "amaint" => { block_on(ac.run_maintenance()); Ret::Unit }
+          "aget" => block_on(Box::pin(async { Ret::Opt(ac.get(&k, |x| *x).await) })),
+          "apeek" => block_on(Box::pin(async { Ret::Opt(ac.peek(&k).await.map(|a| *a)) })),
+          "afetch" => block_on(Box::pin(async { Ret::Opt(ac.fetch(&k).await.map(|a| *a)) })),
+          "ainsert" => block_on(Box::pin(async { ac.insert(k, v, c).await; Ret::Unit })),
+          "ainsertttl" => block_on(Box::pin(async { ac.insert_with_ttl(k, v, c, Duration::from_nanos(num(4))).await; Ret::Unit })),
+          "aremove" => block_on(Box::pin(async { Ret::Opt(ac.remove(&k).await.map(|a| *a)) })),
+          "acompute" => block_on(Box::pin(async { Ret::Cmp(if ac.compute(&k, |x| *x += 1000).await { "true" } else { "none" }) })),
+          "atrycompute" => block_on(Box::pin(async { Ret::Cmp(match ac.try_compute(&k, |x| *x += 1000).await { Some(true) => "true", Some(false) => "false", None => "none" }) })),
+          "aorinsert" => block_on(Box::pin(async { Ret::Val(*ac.entry(k).await.or_insert(v, c)) })),
+          "aclear" => block_on(Box::pin(async { ac.clear().await; Ret::Unit })),
+          "amaint" => block_on(Box::pin(async { ac.run_maintenance().await; Ret::Unit })),
           _ => Ret::Unit,
         };
         let last_op = i + 1 == prog.len();
@@ -711,7 +809,7 @@ fn run_case(id: &str, cfg: &Cfg, programs: &[Vec<String>], strat: Strategy, stra
     POOL.lock().unwrap().extend(pool_threads.drain(..));
   }
   drop(pool_threads);
-  let final_obs = if finished_ok { Some(observe(&cache, cfg.nkeys, expiry, &BTreeSet::new(), s_n)) } else { None };
+  let final_obs = if finished_ok { Some(observe(&cache, cfg.nkeys, expiry, &BTreeSet::new(), &BTreeSet::new(), s_n)) } else { None };
 
   let g = sched.m.lock().unwrap();
   // ---- transcript
@@ -723,6 +821,9 @@ fn run_case(id: &str, cfg: &Cfg, programs: &[Vec<String>], strat: Strategy, stra
   }
   tr.raw(&format!("X {}", g.run_status));
   let mut sigs = monitors(id, cfg, programs, &g.log, final_obs.as_ref(), &lis);
+  if let Some((in_clear, picture)) = &g.hang {
+    sigs.push((if *in_clear { "conc:hang:clear-lock-order-deadlock" } else { "conc:hang:unexplained" }.to_string(), format!("case {id}: no worker can move: {picture}")));
+  }
   sigs.sort(); sigs.dedup_by(|a, b| a.0 == b.0);
   for (s, m) in &sigs { tr.monitor(s, m); }
   Outcome { transcript: tr.finish(), choice_points: g.choice_points.clone(), decisions: g.decisions.clone(), monitor_sigs: sigs.into_iter().map(|x| x.0).collect() }
@@ -1060,6 +1161,8 @@ fn fixed_programs() -> Vec<(Cfg, Vec<Vec<String>>)> {
     (ex(2 * S, 0), prog("insert 1 10 1 ; aget 1 || advance 2000000000")),
     (c(1, Some(3), false, 3), prog("ainsert 0 10 2 ; ainsert 1 11 2 ; ainsert 2 12 2 ; amaint || aremove 0")),
     (c(2, None, false, 2), prog("aclear || insert 0 10 1 ; insert 1 11 1")),
+    (c(2, None, false, 2), prog("aclear || aclear")),
+    (c(2, None, false, 2), prog("aclear || clear")),
   ]
 }
 
